@@ -143,6 +143,39 @@ case("s05-closures-in-test-update-and-for-of-head", "closures created in the tes
               ("SBlock", [("SExpr", ("EOpAssign", "BAdd", ident("a"), num(10))), pr(ident("a"), call(ident("f")))]))],
             funcs=[arrow([], I), arrow([], I), arrow(["f"], call(ident("f"))), arrow([], ident("a"))]))
 
+# regression sentinels for FunctionDeclarationInstantiation 27-28: closures in parameter defaults over FREE names that the body declares
+X = ident("x")
+case("s06-default-closure-free-name-body-var", "a default-parameter closure over a free name keeps the outer binding although the body declares `var x` (no parameter is redeclared)",
+     script([("SDecl", "KVar", [(pid("x"), s("outer"))]), ("SFunDecl", u("f"), 3),
+             pr(call(ident("f"))), pr(X)],
+            funcs=[arrow([], X), arrow([], ("EUnary", "UTypeof", X)), arrow(["v"], ("EAssign", pid("x"), ident("v"))),
+                   func(name="f", params=[(pid("g"), ("EFunc", 0)), (pid("t"), ("EFunc", 1)), (pid("w"), ("EFunc", 2))],
+                        body=[pr(s("a"), call(ident("g")), call(ident("t")), X),
+                              ("SDecl", "KVar", [(pid("x"), s("inner"))]),
+                              ("SExpr", call(ident("w"), s("written"))),
+                              pr(s("b"), X, call(ident("g"))),
+                              ("SReturn", ("EBinary", "BAdd", ("EBinary", "BAdd", call(ident("g")), s(",")), X))])]))
+case("s07-default-closure-free-name-body-function", "the same in a function-local setting with a body function declaration of that name and a body let of another",
+     main_prog([let("x", s("outer")), let("y", s("outerY")), ("SFunDecl", u("f"), 3), pr(call(ident("f"), num(1))), pr(X, ident("y"))],
+               funcs=[arrow([], X), arrow([], ("EUnary", "UTypeof", X)), arrow([], ident("y")),
+                      func(name="f", params=[(pid("p"), None), (pid("g"), ("EFunc", 0)), (pid("t"), ("EFunc", 1)), (pid("h"), ("EFunc", 2))],
+                           body=[pr(s("a"), call(ident("t")), ("EUnary", "UTypeof", X), call(ident("h"))),
+                                 ("SFunDecl", u("x"), 4), let("y", s("innerY")),
+                                 pr(s("b"), call(ident("g")), call(ident("t")), call(ident("h")), ident("y")),
+                                 ("SReturn", call(ident("g")))]),
+                      func(name="x", body=[("SReturn", s("fn"))])]))
+case("s08-default-closure-free-name-generator-async", "generator and async function positions; the async one also redeclares a parameter (the other code path)",
+     script([let("x", s("outer")), ("SFunDecl", u("gen"), 1), ("SFunDecl", u("af"), 2),
+             let("it", call(ident("gen")), "KConst"), pr(member(call(member(ident("it"), "next")), "value")), pr(member(call(member(ident("it"), "next")), "value")),
+             ("SExpr", call(member(call(ident("af"), num(1)), "then"), ("EFunc", 3))), pr(s("sync"), X)],
+            funcs=[arrow([], X),
+                   func(name="gen", kind="FGenerator", params=[(pid("g"), ("EFunc", 0))],
+                        body=[("SDecl", "KVar", [(pid("x"), s("inner"))]), ("SYield", None, None, call(ident("g")), False), ("SReturn", X)]),
+                   func(name="af", kind="FAsync", params=[(pid("p"), None), (pid("g"), ("EFunc", 0))],
+                        body=[("SDecl", "KVar", [(pid("x"), s("inner")), (pid("p"), None)]), ("SAwait", None, None, num(0)),
+                              ("SReturn", ("EBinary", "BAdd", ("EBinary", "BAdd", call(ident("g")), X), ident("p")))]),
+                   arrow(["v"], call(ident("print"), s("then"), ident("v")))]))
+
 if __name__ == "__main__":
     out = os.path.join(os.path.dirname(HERE), "corpus", "C01")
     os.makedirs(out, exist_ok=True)
